@@ -21,8 +21,8 @@ MANIFEST = {
         "design_ref": "DESIGN.md 3/C14",
     },
 }
-PROPS = {"C13": ["Nstd.Server.PropsC13", "Nstd.Server.PropsC13Batch", "Nstd.Server.PropsTr", "Nstd.Server.PropsTr13"],
-         "C14": ["Nstd.Server.PropsC14", "Nstd.Server.PropsC14R", "Nstd.Server.PropsTr"]}
+PROPS = {"C13": ["Nstd.Server.PropsC13", "Nstd.Server.PropsC13Batch", "Nstd.Server.PropsTr", "Nstd.Server.PropsTr13", "Nstd.Server.PropsTrLoop"],
+         "C14": ["Nstd.Server.PropsC14", "Nstd.Server.PropsC14R", "Nstd.Server.PropsTr", "Nstd.Server.PropsTrLoop"]}
 LEAN_TARGETS = ["Nstd.Server.Props", "drv_server"]
 DRIVER = "drv_server"
 GEN_TR = C.LEAN / "Nstd" / "Generated" / "ServerTr.lean"
